@@ -24,6 +24,11 @@ EXTENDS VU
 \* ---- observed reals ---------------------------------------------------------------
 SObsEq(r, e)  == r.k = "rat" /\ r.n = e[1] /\ r.d = e[2]          \* e normalised
 SObsIn(r, E)  == \E e \in E : SObsEq(r, e)
+\* Interval observations (large-offset lattices, float32 input: the tolerance "to rounding" of the operand
+\* scale, offset included, no longer isolates one rational):  [k |-> "ivl", n |-> lo, d |-> hi, K |-> K] is the
+\* closed interval [lo/K, hi/K] (rounded outward by the harness); the exact expectation must lie inside.
+SObsEqI(r, e) == SObsEq(r, e) \/ (r.k = "ivl" /\ r.n * e[2] <= e[1] * r.K /\ e[1] * r.K <= r.d * e[2])
+SObsInI(r, E) == \E e \in E : SObsEqI(r, e)
 SSign(k)      == IF k < 0 THEN -1 ELSE IF k > 0 THEN 1 ELSE 0
 SOnes(n)      == [i \in 1..n |-> 1]
 
@@ -126,14 +131,40 @@ SClipAfter(c, S, k) == IF k = 0 \/ S = {} THEN {S}
 SClipFinals(c) == SClipAfter(c, DOMAIN c.x, c.niter)
 SClipEnumMax == 8      \* SClipFinals is enumerated up to this many data only (cost up to 3^n)
 
+\* ---- sigma clipping where mean and deviation are themselves known only "to rounding" ------------
+\* On a lattice with a large offset (value = (x + OFF) * unit, OFF up to 2^40) or with float32 data the
+\* current mean m and deviation s are determined to tol = 16 ulp of the operand scale (offset included)
+\* only, c.tol = <<p, q>> >= 0 in lattice units (<<0, 1>> on the small double-precision lattices: exact
+\* judgement, the operators below then coincide with the exact ones - StatsMC!ClipTolZeroAgrees).
+\* A point is SURELY strictly within nsig deviations when |x_i - m| + tol (1 + nsig) < nsig s, surely
+\* not when |x_i - m| - tol (1 + nsig) > nsig s, and FREE (kept or discarded) otherwise.  In units of
+\* 1/(W nsd):  d_i = |W x_i - A| nsd,  nsig s = sqrt(R),  R = nsn^2 (W B - A^2),  E = ceil(tol (nsd + nsn) W).
+SClipTolE(c, S)   == (c.tol[1] * (c.nsn + c.nsd) * SSumW(c.w, S) + c.tol[2] - 1) \div c.tol[2]
+SClipDev(c, S, i) == VAbs(SSumW(c.w, S) * c.x[i] - SSumWX(c.x, c.w, S)) * c.nsd
+SClipKeepT(c, S)  == LET E == SClipTolE(c, S)  R == SClipRhs(c, S)
+                     IN {i \in S : (SClipDev(c, S, i) + E) * (SClipDev(c, S, i) + E) < R}
+SClipFreeT(c, S)  == LET E == SClipTolE(c, S)  R == SClipRhs(c, S)
+                     IN {i \in S : LET d == SClipDev(c, S, i)
+                                   IN (d + E) * (d + E) >= R /\ (d <= E \/ (d - E) * (d - E) <= R)}
+SClipInCandsT(c, S, T) == SClipKeepT(c, S) \subseteq T /\ T \subseteq (SClipKeepT(c, S) \cup SClipFreeT(c, S))
+SClipInSuccT(c, S, U)  == (U # {} /\ SClipInCandsT(c, S, U)) \/ ((U = S \/ U = {}) /\ SClipKeepT(c, S) = {})
+SClipStopsPT(c, S)     == S = {} \/ SClipKeepT(c, S) = {} \/ SClipKeepT(c, S) \cup SClipFreeT(c, S) = S
+SClipCandsT(c, S) == {SClipKeepT(c, S) \cup T : T \in SUBSET SClipFreeT(c, S)}
+SClipSuccT(c, S)  == UNION {IF T = {} THEN {S, {}} ELSE {T} : T \in SClipCandsT(c, S)}
+RECURSIVE SClipAfterT(_, _, _)
+SClipAfterT(c, S, k) == IF k = 0 \/ S = {} THEN {S}
+                        ELSE IF SClipConstant(c, S) THEN SUBSET S
+                        ELSE UNION {IF T = S THEN {S} ELSE SClipAfterT(c, T, k - 1) : T \in SClipSuccT(c, S)}
+SClipFinalsT(c) == SClipAfterT(c, DOMAIN c.x, c.niter)
+
 \* statistics of a reported subset F (# {}): the error of the weighted variant is
 \* not named by the statement - either documented convention is accepted
 SClipMean(c, F) == SMean(c.x, c.w, F)
 SClipVar(c, F)  == SVar(c.x, c.w, F)
 \* o.err2 is the observation mapped as a variance-like quantity, o.err2i mapped as 1/weight
-SClipErrOK(c, F, o) == IF c.hasw THEN \/ SObsEq(o.err2, SErr2Calc(c.x, c.w, F, SMean(c.x, c.w, F)))
-                                      \/ SObsEq(o.err2i, SErr2Inv(c.w, F))
-                       ELSE SObsEq(o.err2, RDiv(SVar(c.x, c.w, F), RInt(Cardinality(F))))
+SClipErrOK(c, F, o) == IF c.hasw THEN \/ SObsEqI(o.err2, SErr2Calc(c.x, c.w, F, SMean(c.x, c.w, F)))
+                                      \/ SObsEqI(o.err2i, SErr2Inv(c.w, F))
+                       ELSE SObsEqI(o.err2, RDiv(SVar(c.x, c.w, F), RInt(Cardinality(F))))
 
 \* ---- linear inter/extrapolation -----------------------------------------------------
 \* table xs (strictly increasing), vs; query u = <<p, q>>
@@ -173,11 +204,11 @@ SWmomCol(c, o, j) ==
         \* moments "about the mean": with a supplied mean the statement does not say
         \* which mean - the supplied one (what the docstring describes) or the weighted one
         mus == IF c.hasmu THEN {c.mu, m} ELSE {m}
-    IN (IF SObsEq(o.mean[j], IF c.hasmu THEN c.mu ELSE m) THEN {}
+    IN (IF SObsEqI(o.mean[j], IF c.hasmu THEN c.mu ELSE m) THEN {}
         ELSE {IF c.hasmu THEN "inputmean_not_returned" ELSE "wmean"}) \cup
-       (IF c.calcerr THEN (IF SObsIn(o.err2[j], {SErr2Calc(x, w, P, mu) : mu \in mus}) THEN {} ELSE {"werr_calcerr"})
-        ELSE (IF SObsEq(o.err2[j], SErr2Inv(w, P)) THEN {} ELSE {"werr_invsum"})) \cup
-       (IF ~c.sdev \/ SObsIn(o.var[j], {SVarAbout(x, w, P, mu) : mu \in mus}) THEN {} ELSE {"wsdev"})
+       (IF c.calcerr THEN (IF SObsInI(o.err2[j], {SErr2Calc(x, w, P, mu) : mu \in mus}) THEN {} ELSE {"werr_calcerr"})
+        ELSE (IF SObsEqI(o.err2[j], SErr2Inv(w, P)) THEN {} ELSE {"werr_invsum"})) \cup
+       (IF ~c.sdev \/ SObsInI(o.var[j], {SVarAbout(x, w, P, mu) : mu \in mus}) THEN {} ELSE {"wsdev"})
 SWmomFailing(c, o) ==
     IF o.err # "none" THEN {"unexpected_error"}
     ELSE LET d == Len(c.x)
@@ -188,7 +219,7 @@ SWmomFailing(c, o) ==
 \* c = [x, w : Seq(Int)],  o = [err, val : obs real]
 SWmedFailing(c, o) ==
     IF o.err # "none" THEN {"unexpected_error"}
-    ELSE IF SObsEq(o.val, RInt(SWMedian(c.x, c.w))) THEN {} ELSE {"wmedian"}
+    ELSE IF SObsEqI(o.val, RInt(SWMedian(c.x, c.w))) THEN {} ELSE {"wmedian"}
 
 \* ---- sigma_clip ---------------------------------------------------------------------------
 \* o = [err, steps : Seq(Seq(Nat)), mean, var, err2, err2i : obs real]
@@ -202,18 +233,18 @@ SClipFailing(c, o) ==
     ELSE LET St(k) == VRange(o.steps[k])
              F     == St(c.niter + 1)
          IN (IF St(1) = DOMAIN c.x THEN {} ELSE {"niter0_not_all"}) \cup
-            (IF \A k \in 1..c.niter : St(k + 1) = St(k) \/ SClipInSucc(c, St(k), St(k + 1))
+            (IF \A k \in 1..c.niter : St(k + 1) = St(k) \/ SClipInSuccT(c, St(k), St(k + 1))
              THEN {} ELSE {"clip_step"}) \cup
             (IF \A k \in 1..c.niter : (St(k + 1) = St(k) /\ k < c.niter) => St(k + 2) = St(k)
              THEN {} ELSE {"resumed_after_stop"}) \cup
-            (IF \A k \in 1..c.niter : St(k + 1) = St(k) => SClipStopsP(c, St(k))
+            (IF \A k \in 1..c.niter : St(k + 1) = St(k) => SClipStopsPT(c, St(k))
              THEN {} ELSE {"stopped_early"}) \cup
             \* the reported subset is one the procedure may end on: enumerated for small inputs; for larger
             \* ones it follows from the four chain clauses above (F is the last link of the observed chain)
-            (IF Len(c.x) > SClipEnumMax \/ F \in SClipFinals(c) THEN {} ELSE {"subset"}) \cup
+            (IF Len(c.x) > SClipEnumMax \/ F \in SClipFinalsT(c) THEN {} ELSE {"subset"}) \cup
             (IF F = {} THEN {}
-             ELSE (IF SObsEq(o.mean, SClipMean(c, F)) THEN {} ELSE {"mean_of_subset"}) \cup
-                  (IF SObsEq(o.var, SClipVar(c, F)) THEN {} ELSE {"std_of_subset"}) \cup
+             ELSE (IF SObsEqI(o.mean, SClipMean(c, F)) THEN {} ELSE {"mean_of_subset"}) \cup
+                  (IF SObsEqI(o.var, SClipVar(c, F)) THEN {} ELSE {"std_of_subset"}) \cup
                   (IF SClipErrOK(c, F, o) THEN {} ELSE {"err_of_subset"}))
 
 \* ---- interplin ---------------------------------------------------------------------------
@@ -224,7 +255,7 @@ SInterpFailing(c, o) ==
     ELSE IF \E a \in DOMAIN o.vals : Len(o.vals[a]) # Len(c.us) THEN {"shape"}
     ELSE UNION {LET u == c.us[q]
                     n == Len(c.xs)
-                IN IF SObsIn(o.vals[a][q], SInterpVals(c.xs, c.vs, u)) THEN {}
+                IN IF SObsInI(o.vals[a][q], SInterpVals(c.xs, c.vs, u)) THEN {}
                    ELSE IF RLt(u, RInt(c.xs[1])) THEN {"extrapolation_below"}
                    ELSE IF RLt(RInt(c.xs[n]), u) THEN {"extrapolation_above"}
                    ELSE IF \E k \in 1..n : REq(u, RInt(c.xs[k])) THEN {"at_node"} ELSE {"inside"}
@@ -235,17 +266,17 @@ SInterpFailing(c, o) ==
 \*      calcerr : BOOLEAN (weights mode: FALSE when calcerr=False was passed),
 \*      hasw, nsn, nsd, niter (clip mode; one column)]
 \* o = [err, mean, var, err2, err2i, min, max : Seq(obs real)]
-SGsClipCase(c) == [x |-> c.x[1], w |-> c.w[1], hasw |-> c.hasw, nsn |-> c.nsn, nsd |-> c.nsd, niter |-> c.niter]
+SGsClipCase(c) == [x |-> c.x[1], w |-> c.w[1], hasw |-> c.hasw, nsn |-> c.nsn, nsd |-> c.nsd, niter |-> c.niter, tol |-> c.tol]
 SGstatsCol(c, o, j) ==
     LET x == c.x[j]  P == DOMAIN x  w == IF c.mode = "plain" THEN SOnes(Len(x)) ELSE SWCol(c, j)
         m == SMean(x, w, P)
-    IN (IF SObsEq(o.mean[j], m) THEN {} ELSE {"mean"}) \cup
-       (IF SObsEq(o.var[j], SVar(x, w, P)) THEN {} ELSE {"std"}) \cup
-       (IF (IF c.mode = "plain" THEN SObsEq(o.err2[j], SErr2Plain(x, P))
-            ELSE IF c.calcerr THEN SObsEq(o.err2[j], SErr2Calc(x, w, P, m)) ELSE SObsEq(o.err2i[j], SErr2Inv(w, P)))
+    IN (IF SObsEqI(o.mean[j], m) THEN {} ELSE {"mean"}) \cup
+       (IF SObsEqI(o.var[j], SVar(x, w, P)) THEN {} ELSE {"std"}) \cup
+       (IF (IF c.mode = "plain" THEN SObsEqI(o.err2[j], SErr2Plain(x, P))
+            ELSE IF c.calcerr THEN SObsEqI(o.err2[j], SErr2Calc(x, w, P, m)) ELSE SObsEqI(o.err2i[j], SErr2Inv(w, P)))
         THEN {} ELSE {"err"}) \cup
-       (IF SObsEq(o.min[j], RInt(SMinOf(x, P))) THEN {} ELSE {"min"}) \cup
-       (IF SObsEq(o.max[j], RInt(SMaxOf(x, P))) THEN {} ELSE {"max"})
+       (IF SObsEqI(o.min[j], RInt(SMinOf(x, P))) THEN {} ELSE {"min"}) \cup
+       (IF SObsEqI(o.max[j], RInt(SMaxOf(x, P))) THEN {} ELSE {"max"})
 SGstatsFailing(c, o) ==
     IF o.err # "none" THEN {"unexpected_error"}
     ELSE IF \E f \in {o.mean, o.var, o.err2, o.err2i, o.min, o.max} : Len(f) # Len(c.x) THEN {"shape"}
@@ -254,12 +285,12 @@ SGstatsFailing(c, o) ==
              x  == c.x[1]
              \* consistent with sigma_clip: the statistics of one subset the clipping may report;
              \* min/max: the statement does not say of what - whole array or that subset
-             fits(F) == F # {} /\ SObsEq(o.mean[1], SClipMean(cc, F)) /\ SObsEq(o.var[1], SClipVar(cc, F))
+             fits(F) == F # {} /\ SObsEqI(o.mean[1], SClipMean(cc, F)) /\ SObsEqI(o.var[1], SClipVar(cc, F))
                                /\ SClipErrOK(cc, F, [err2 |-> o.err2[1], err2i |-> o.err2i[1]])
-             Fs == {F \in SClipFinals(cc) : fits(F)}
+             Fs == {F \in SClipFinalsT(cc) : fits(F)}
          IN IF Fs = {} THEN {"clip_stats"}
-            ELSE (IF \E F \in Fs \cup {DOMAIN x} : SObsEq(o.min[1], RInt(SMinOf(x, F))) THEN {} ELSE {"min"}) \cup
-                 (IF \E F \in Fs \cup {DOMAIN x} : SObsEq(o.max[1], RInt(SMaxOf(x, F))) THEN {} ELSE {"max"})
+            ELSE (IF \E F \in Fs \cup {DOMAIN x} : SObsEqI(o.min[1], RInt(SMinOf(x, F))) THEN {} ELSE {"min"}) \cup
+                 (IF \E F \in Fs \cup {DOMAIN x} : SObsEqI(o.max[1], RInt(SMaxOf(x, F))) THEN {} ELSE {"max"})
 
 \* ---- cov2cor / cor2cov ----------------------------------------------------------------------
 \* c = [m : Seq(Seq(Int))]
@@ -270,9 +301,9 @@ SCovFailing(c, o) ==
     ELSE LET n == Len(c.m)
              shapeok(a) == Len(a) = n /\ \A i \in 1..n : Len(a[i]) = n
          IN IF ~shapeok(o.cor) \/ ~shapeok(o.back) THEN {"shape"}
-            ELSE (IF \A i, j \in 1..n : SObsEq(o.cor[i][j], SCor2(c.m, i, j)) /\ o.cor[i][j].s = SSign(c.m[i][j])
+            ELSE (IF \A i, j \in 1..n : SObsEqI(o.cor[i][j], SCor2(c.m, i, j)) /\ o.cor[i][j].s = SSign(c.m[i][j])
                   THEN {} ELSE {"cor_definition"}) \cup
-                 (IF \A i, j \in 1..n : SObsEq(o.back[i][j], RInt(c.m[i][j])) THEN {} ELSE {"roundtrip"})
+                 (IF \A i, j \in 1..n : SObsEqI(o.back[i][j], RInt(c.m[i][j])) THEN {} ELSE {"roundtrip"})
 
 \* ---- dispatch ---------------------------------------------------------------------------------
 SFailing(op, c, o) ==
